@@ -412,6 +412,8 @@ func TestVerifC26(t *testing.T) {
 		replay := map[string]any{"codec": fn, "input_hex": fmt.Sprintf("%x", p.in), "class": rs.Class, "msg": rs.Msg, "alloc": rs.Alloc}
 		switch rs.Class {
 		case "unconfirmed-hang":
+			vfWDUnconfirmed(fn, p.in, rs.Msg)
+			classes[p.codec+"/"+p.class+"/unconfirmed-hang"]++
 			continue
 		case "hang":
 			vfOracleFail(p.codec+":decode-hang", fn+" does not return within the deadline on a "+fmt.Sprint(len(p.in))+"-byte input (loop driven by a count read from the input)", replay)
